@@ -137,7 +137,7 @@ PROPS = {
                    "vector/deque/list/set; DynamicBitSet concurrent set/reset plus range reset at generated alignments, bitwise ops, count, getOffsets; atomicMin/Max/Add/Subtract; concurrent union-find. "
                    "Oracle: sequential fold / std:: containers / serial union-find.",
         level_note="Sampling over seeds; the value-only parts (identities, masks) ride along on the simulated concurrent runs, the schedule-dependent parts (CAS loops under spurious weak-CAS failure, concurrent merges) are what the simulator adds.",
-        **tiers(8000, 120, 200000, 1500)),
+        **tiers(20000, 120, 500000, 1500)),
     "C16": dict(
         jobs=[dict(harness="c16_pstl", variant="a", weight=2), dict(harness="c16_pstl", variant="n", weight=1)],
         components=comp(), expected_probes=[],
@@ -160,7 +160,7 @@ PROPS = {
                    "from several threads (1B..1MB, constructed free-list/'change' scenario), largeMalloc*/LargeArray, and the per-iteration allocator inside for_each (pia instantiations of the loop harness). "
                    "Oracle: shadow interval map (non-null, size, alignment, disjoint from all live blocks) + canaries verified at free and at the end. Faults: huge-page refusal, spurious weak-CAS failure.",
         level_note="Sampling over seeds. Requests stay inside the 2MB per-thread-storage capacity model (exceeding it is a designed GALOIS_DIE). Page alignment is checked against the simulated mmap, which places 2MB-multiples on 2MB boundaries.",
-        **tiers(6000, 120, 150000, 1500)),
+        **tiers(16000, 120, 400000, 1500)),
     "C10": dict(
         jobs=[dict(harness="c10_morph", variant="a", weight=2), dict(harness="c10_morph", variant="n", weight=1)],
         components=comp(), expected_probes=["mutations"],
@@ -170,7 +170,7 @@ PROPS = {
                    "Oracle: serial replay of the commit log on a fresh graph of the same type -> identical structural dump and identical observed results; structural invariants "
                    "(reverse entries, shared data cell, no dangling edge, sortedness, iteration exactly once).",
         level_note="Sampling over seeds. Items are cautious at operator level (all touched nodes acquired first); removed nodes are never re-added.",
-        **tiers(6000, 120, 150000, 1500)),
+        **tiers(20000, 120, 400000, 1500)),
     "C11": dict(
         jobs=[dict(harness="c11_lcgraphs", variant="a", weight=2), dict(harness="c11_lcgraphs", variant="n", weight=1)],
         components=comp(extra_stub=["file system: real files in a per-run scratch directory"]), expected_probes=["edges_checked"],
@@ -180,17 +180,25 @@ PROPS = {
                    "LC_Morph; then findEdge, sortAllEdgesByDst, findEdgeSortedByDst, sortEdgesByEdgeData, transpose, per-thread local ranges. Oracle: exact comparison with the generator's edge list "
                    "(file order for CSR layouts, unique edge ids for layouts with free node order), views are permutations grouped correctly, local ranges partition [0,n).",
         level_note="Sampling over seeds. Sequential lookups ride along as oracle reads; what the simulator adds are the interleavings of the per-thread construction, the fromFileInterleaved condvar hand-shake and the atomic slot claiming in transpose / in-edge construction.",
-        **tiers(4000, 150, 100000, 1800)),
+        **tiers(12000, 150, 300000, 1800)),
     "C12": dict(
-        jobs=[dict(harness="c12_files", variant="a", weight=2), dict(harness="c12_files", variant="n", weight=1)],
+        jobs=[dict(harness="c12_files", variant="a", weight=2), dict(harness="c12_files", variant="n", weight=1),
+              dict(harness="c12_convert", variant="n", weight=2,
+                   build=dict(sources=["/verif/harness/c12_convert.cpp", ("/repo/tools/graph-convert/graph-convert.cpp", ["-Dmain=app_main"])],
+                              extra_flags=["-isystem", "/usr/lib/llvm-14/include"], extra_link=LLVM_LINK))],
         components=comp(extra_stub=["file layer: real files in a per-run scratch directory; write/pwrite/read/pread issued with shortened counts (short I/O faults)"]),
-        expected_probes=["edges_checked"],
+        expected_probes=["edges_checked", "edgelist2gr", "gr2cgr", "gr2sorteddstgr"],
         design_ref="3.12",
-        level_text="I/O-facing half of the property only: FileGraphWriter + toFile under injected short writes must produce bytes identical to the harness's independent encoder; whole reads (fromFile / fromFileInterleaved), "
+        level_text="Library half: FileGraphWriter + toFile under injected short writes must produce bytes identical to the harness's independent encoder; whole reads (fromFile / fromFileInterleaved), "
                    "partFromFile at generated split points, OfflineGraph (seek + read), BufferedGraph partial loads and OfflineGraphWriter are compared with the generator's edge list through an independent decoder, "
-                   "for format versions 1 and 2, edge data widths 0/4/8, odd and even edge counts, under injected short reads.",
-        level_note="That each graph-convert option computes the documented graph is a pure function of the input file and is NOT decided here (DESIGN 3.12); BufferedGraph is exercised for version 1 only (documented limitation).",
-        **tiers(5000, 100, 100000, 1200)),
+                   "for format versions 1 and 2, edge data widths 0/4/8, odd and even edge counts, under injected short reads. "
+                   "Tool half: the real graph-convert (its main() renamed) runs one conversion per simulated run with short reads/writes injected into its file I/O: edgelist2gr, csv2gr, dimacs2gr, mtx2gr "
+                   "(generated text with comments, blank lines, CR/LF, surplus columns, id gaps and shifts, shuffled line order, negative int32 weights), gr2edgelist, gr2edgelist1ind, gr2dimacs, gr2mtx, gr2adjacencylist "
+                   "(output parsed by the harness), and gr2tgr, gr2sgr, gr2cgr, gr2sorteddstgr, gr2sortedweightgr, gr2randomweightgr, gr2randgr (through the permutation file), gr2ringgr, gr2linegr, gr2biggr "
+                   "on version-1 and version-2 inputs with void/uint32/int32/int64/uint64 edge data; node count, per-node edge multisets with weights, sortedness, weight ranges and byte order are compared with the model.",
+        level_note="The conversion logic itself is a function of the input file; it is decided here only as a by-product of running the tool under injected short I/O (DESIGN 3.12). Not covered: float edge types, "
+                   "pbbs/rmat/metis/totem/neo4j/bsml/svmlight/petsc/nodelist formats, the partitioning, tree, degree-sorting and low-degree conversions, graph-convert-huge, graph-remap, dist-graph-convert. BufferedGraph is exercised for version 1 only (documented limit).",
+        **tiers(15000, 120, 300000, 1500)),
     "C20": dict(
         jobs=app_jobs([1, 2, 3, 4, 5, 6, 7]),
         components=comp(extra_real=["the unmodified application sources (their own main(), renamed), liblonestar BoilerPlate"], extra_stub=["LLVM command-line library runs uninstrumented"]),
